@@ -282,8 +282,9 @@ def opPoll (w : World) (r : Nat) : World × String :=
           -- release: plain store of None
           ((s.setSlot k { x with st := .none }, delH w.2 r), "ready.err.timeout")
         else
-          -- re-arm (the new timer is polled once straight away), plain store of Sendable, wake sender
-          let s' := s.setSlot k { x with st := .sendable }
+          -- re-arm (the new timer is polled once straight away), `Sent → Sendable` compare-exchange
+          -- (a frame that is not waiting for its response is left alone), wake sender
+          let s' := if x.st = .sent then s.setSlot k { x with st := .sendable } else s
           if okWas then
             ((s', putH w.2 ⟨r, k, .fut (retries - 1) (s.now + timeout) timeout true⟩), "pending")
           else ((s', delH w.2 r), "ready.err.invalidframestate")
